@@ -23,14 +23,27 @@ ASSUMPTIONS = ["registers compared: sp, csp, current_object, previous_ob, curren
                "the snapshot after the call is taken after the harness's own restore_context/pop_context, exactly where backend() continues"]
 NONTRIVIAL_FLOOR = {"quick": 300, "thorough": 5000}
 
-KINDS = ["call", "agg", "call_other", "peer", "fp", "expr_fp", "bound_fp", "map", "filter", "sort", "unique", "foreach", "catch", "catch",
+KINDS = ["call", "inh", "inh", "agg", "call_other", "peer", "fp", "expr_fp", "bound_fp", "map", "filter", "sort", "unique", "foreach", "catch", "catch",
          "init", "id", "create", "mod", "catch_tell", "implode_fp"]
-SITES = ["error", "throw", "div0", "type", "bounds", "badarg", "deep", "evalcost", "callother0", "sscanf", "deepmiss"]
+SITES = ["error", "inh_error", "inh_error", "throw", "div0", "type", "bounds", "badarg", "deep", "evalcost", "callother0", "sscanf", "deepmiss"]
 UNCATCHABLE = {"deep", "evalcost", "deepmiss"}
-EXPECT = {"error": "boom", "div0": "ivision", "type": "", "bounds": "ounds", "badarg": "ad argument", "callother0": "", "sscanf": "", "inject": "injected fault"}
+EXPECT = {"error": "boom", "inh_error": "boom", "div0": "ivision", "type": "", "bounds": "ounds", "badarg": "ad argument", "callother0": "", "sscanf": "", "inject": "injected fault"}
 
+PA = 'int pa_g = 11;\nint pa_fn() { return pa_g; }\n'
+PB = r'''
+int pb_g1 = 21;
+int pb_g2 = 22;
+// a frame of the second inherited program (its function and variable index offsets differ from the inheriting program's)
+mixed pb_relay(int i) { pb_g1++; return call_other(this_object(), "step", i); }
+mixed pb_fail() { pb_g2++; error("boom\n"); }
+int pb_sum() { return pb_g1 * 1000 + pb_g2; }
+'''
 MAIN = r'''
+inherit "/t/c05pa";
+inherit "/t/c05pb";
 string *plan = ({ });
+int nplan;
+int lfun_probe() { return 4711; }
 string site = "none";
 int prog, level, zero, cgbad;
 mixed *caught = ({ });
@@ -46,6 +59,7 @@ mixed fail() {
   switch (site) {
   case "none": return 1;
   case "error": error("boom\n");
+  case "inh_error": return pb_fail();
   case "throw": throw(({ 1, "thrown" }));
   case "div0": return 10 / zero;
   case "type": return a + b;
@@ -68,6 +82,7 @@ mixed step(int i) {
   level = i;
   switch (plan[i]) {
   case "call": return ({ "call", step(i + 1) });
+  case "inh": return ({ "inh", pb_relay(i + 1) });
   case "agg": return ({ "agg", "tmp", 3.5, ([ "k": ({ 1 }) ]), step(i + 1) })[4..4] + ({ "agg" });
   case "call_other": return ({ "call_other", call_other(this_object(), "step", i + 1) });
   case "peer": return ({ "peer", "/t/c05peer"->relay() });
@@ -83,6 +98,7 @@ mixed step(int i) {
   case "catch":
     o = this_player(); room = previous_object();
     e = catch(r = step(i + 1));
+    if (e && (sizeof(plan) != nplan || lfun_probe() != 4711 || pa_fn() != 11)) cgbad += 10000;   // own globals, local and inherited calls
     if (e && this_player() != o) cgbad++;             // command giver as at the catch point
     if (e && previous_object() != room) cgbad += 100; // and the caller too
     caught += ({ e }); return ({ "caught", e, r });
@@ -100,6 +116,7 @@ mixed step(int i) {
 }
 mixed run(string p, string s) {
   plan = explode(p, ",") - ({ "" });
+  nplan = sizeof(plan);
   site = s; prog = 0; level = 0; cgbad = 0; caught = ({ });
   return step(0);
 }
@@ -145,7 +162,7 @@ def cases(draw):
 
 
 REGKEYS = ["sp", "csp", "cur", "prev", "prog", "cg", "ci", "chb", "caller_type", "fio", "vio", "es", "ecd", "ef", "cgsd", "nott", "rd"]
-FILES = {"t/c05.c": MAIN, "t/c05peer.c": PEER, "t/c05hookctl.c": HOOKCTL, "t/c05room.c": ROOM, "t/c05thing.c": THING}
+FILES = {"t/c05pa.c": PA, "t/c05pb.c": PB, "t/c05.c": MAIN, "t/c05peer.c": PEER, "t/c05hookctl.c": HOOKCTL, "t/c05room.c": ROOM, "t/c05thing.c": THING}
 
 
 def expected_value(plan, site):
@@ -166,7 +183,7 @@ def unwrap(v, plan, upto):
             if len(items) != 3 or items[0] != "caught" or items[1] != 0:
                 return ("outer-catch-not-clean", i, cur)
             cur = items[2]
-        elif k in ("call", "call_other", "peer", "fp", "expr_fp", "bound_fp"):
+        elif k in ("call", "inh", "call_other", "peer", "fp", "expr_fp", "bound_fp"):
             cur = items[1]
         elif k == "agg":
             cur = items[0]
@@ -259,7 +276,7 @@ def evaluate_case(ctx, w, case, probe_ref, only_k=None):
         stt = res.step(ci + 4) or {}
         state = unjson(stt["v"])[1] if stt.get("st") == "val" else None
         if state is not None and state[2] != 0:
-            return ("command-giver-not-restored-at-catch", "this_player()/previous_object() after catch differ from before it (code %r)\n%s" % (state[2], where)), None
+            return ("command-giver-not-restored-at-catch", "this_player() / previous_object() / own globals / local and inherited calls after catch differ from before it (code %r: 1 = command giver, 100 = caller, 10000 = variable or function index offsets)\n%s" % (state[2], where)), None
         catchable = not (site in UNCATCHABLE or (k is not None and k[0] == "cost"))
         has_catch = "catch" in plan
         if k is None and site in SITES:
